@@ -111,6 +111,44 @@ fn check_pair(a: &UVal, b: &UVal) -> Result<u64, String> {
             return Err(format!("and/or/nor line {} = {} but truthiness says {}: {:?}\n{}", i, l[9 + i], w, l, p0));
         }
     }
+    // ---- equality does not depend on how a value came to be: a copy, the variable itself and a value built separately
+    // compare alike (an untouched copy may share its storage with the original; that must not show)
+    let p1 = format!("{}put va into vc\nsay va is vc\nsay va isnt vc\nsay va is va\nsay va isnt va\nsay vc is va\nlet vd be vc\nsay vd is va\nsay vd is not va\n", pre);
+    let (l1, errd) = run_text(&p1)?;
+    if errd || l1.len() != 7 {
+        return Err(format!("copy-equality program failed or printed {} lines (expected 7): {:?}\n{}", l1.len(), l1, p1));
+    }
+    digest ^= fnv_str(&l1.join("|"));
+    let is_copy = tf(&l1[0])?;
+    for (i, what) in [(2, "a is a"), (4, "copy is a"), (5, "copy of copy is a")] {
+        if tf(&l1[i])? != is_copy {
+            return Err(format!("`{}` = {} but `a is <copy of a>` = {}\n{}", what, l1[i], is_copy, p1));
+        }
+    }
+    for (i, j, what) in [(1, 0, "a isnt <copy>"), (3, 2, "a isnt a"), (6, 5, "<copy of copy> is not a")] {
+        if tf(&l1[i])? == tf(&l1[j])? {
+            return Err(format!("`{}` = {} is not the negation of the matching `is` = {}\n{}", what, l1[i], l1[j], p1));
+        }
+    }
+    if a.label == b.label && is_copy != is_ab {
+        return Err(format!("a value equals its copy ({}) but not an equal value built separately ({}), or the reverse\n{}\n--- and\n{}", is_copy, is_ab, p1, p0));
+    }
+    // ---- a list after and / or / nor folds left to right: the one-statement form equals the step-by-step form
+    for op in ["and", "or", "nor"] {
+        let p2 = format!(
+            "{pre}say va {op} vb, va\nput va {op} vb into tmp\nsay tmp {op} va\nsay vb {op} va, va, vb\nput vb {op} va into tmp\nput tmp {op} va into tmp\nsay tmp {op} vb\n",
+            pre = pre,
+            op = op
+        );
+        let (l2, errd) = run_text(&p2)?;
+        if errd || l2.len() != 4 {
+            return Err(format!("list-fold program failed or printed {} lines (expected 4): {:?}\n{}", l2.len(), l2, p2));
+        }
+        digest ^= fnv_str(&l2.join("|"));
+        if l2[0] != l2[1] || l2[2] != l2[3] {
+            return Err(format!("`{}` over a list is not the left-to-right fold of its links: {:?}\n{}", op, l2, p2));
+        }
+    }
     // ---- ordering: one program per comparison (it may be a runtime error)
     let ord = |expr: &str| -> Result<Option<bool>, String> {
         let p = format!("{}say {}\n", pre, expr);
